@@ -61,6 +61,7 @@ func c20(c *Ctx) {
 					continue
 				}
 				n++
+				c.loopVisitsAll(run, cfgx.LoopOf(mu.Block()), load.FuncName(run)+": index loop #"+itoa(n+1)+" visits every package", "the loop that indexes the existing packages ends early only with an error", "the loop that indexes the existing packages can be left early without an error: packages listed after that one are not indexed and are installed a second time")
 				callee, opt, okk := refKey(run, mu.Key)
 				c.R.Check(okk && (storeKeyFn == "" || (callee == storeKeyFn && opt == storeOpt)) && hasSuffixCall(mu.Value, ".GetName"), load.FuncName(run)+": index store #"+itoa(n), c.pos(mu.Pos()), "existing packages are indexed by "+cfgx.ShortCallee(callee)+"(parsed source) → object name", "the installed-package index is not filled consistently (key function / parse options differ between package types)")
 				if storeKeyFn == "" {
